@@ -226,7 +226,8 @@ def do_op(op, keys, ks, a_i, payload, kid, allow_listed, v0, v1):
                 return jwt.decode(b"HDRSEG.PAYSEG.SIGSEG", key, algorithms=[alg]).claims
             if op == 10:
                 k = keys[a_i % 4]
-                r = [k.as_dict(private=False), k.thumbprint(), k.kid]
+                # (the lazily assigned thumbprint kid is the documented exception: results are compared without it)
+                r = [{a: b for a, b in k.as_dict(private=False).items() if a != "kid"}, k.thumbprint()]
                 k.ensure_kid()
                 return r + [k.kid]
             for k in ks.keys:
